@@ -99,6 +99,7 @@ func checkC07(c *Check) {
 	c.Extra["scope_functions"] = len(fns)
 	c.Extra["entry_points"] = len(l.consensusEntryPoints())
 	nrange := 0
+	nglobArg := 0
 	for _, fn := range fns {
 		c.Analysed(fnName(fn))
 		where := pathString(scope[fn], fn)
@@ -130,6 +131,16 @@ func checkC07(c *Check) {
 				for _, f := range forbiddenCalls {
 					if strings.HasPrefix(full, f) || full == f {
 						c.Ob("R2", "call to "+full+" in "+fnName(fn), x.Pos(), false, "non-deterministic source reachable from consensus entry point: "+where)
+					}
+				}
+				// R3: the address of an akash package variable handed to a call (pointer-receiver method or pointer
+				// argument) lets the callee mutate process-global state
+				for _, a := range allArgs(x) {
+					if g, isG := a.(*ssa.Global); isG && g.Pkg != nil && strings.HasPrefix(g.Pkg.Pkg.Path(), akash) {
+						nglobArg++
+						if !readOnlyGlobalUse(x, g) {
+							c.Ob("R3", "address of package variable "+g.Name()+" passed to "+full+" in "+fnName(fn), x.Pos(), false, "package-level state can be mutated from consensus code (shared across transactions, queries and goroutines): "+where)
+						}
 					}
 				}
 			case *ssa.Store:
@@ -530,4 +541,25 @@ func taintedUses(fn *ssa.Function, src ssa.Value) []ssa.Instruction {
 		})
 	}
 	return uses
+}
+
+// readOnlyGlobalUse: the call only reads the package variable whose address it receives (value-receiver methods get a
+// copy; a frozen list of read-only pointer-receiver methods).
+func readOnlyGlobalUse(call ssa.CallInstruction, g *ssa.Global) bool {
+	cc := call.Common()
+	callee := cc.StaticCallee()
+	if callee == nil {
+		return false
+	}
+	if recv := callee.Signature.Recv(); recv != nil {
+		if _, isPtr := recv.Type().(*types.Pointer); !isPtr {
+			return true
+		}
+	}
+	switch calleeFull(call) {
+	case "(*github.com/cosmos/cosmos-sdk/types/errors.Error).Error", "(*github.com/cosmos/cosmos-sdk/types/errors.Error).Is",
+		"(*github.com/cosmos/cosmos-sdk/types/errors.Error).ABCICode", "(*github.com/cosmos/cosmos-sdk/types/errors.Error).Codespace":
+		return true
+	}
+	return false
 }
